@@ -172,4 +172,14 @@ VmString *vm_string_from_int(VmHeap *heap, int64_t v);
 VmString *vm_string_from_float(VmHeap *heap, double v);
 VmString *vm_string_from_bool(VmHeap *heap, bool v);
 
+#ifdef NANOLANG_VERIF
+/* Verification hook H2 (live-object registry) */
+bool vm_verif_enabled(void);
+void vm_verif_register(void *p);
+void vm_verif_unregister(void *p);
+bool vm_verif_is_live(const void *p);
+size_t vm_verif_live_count(void);
+void vm_verif_report(const char *msg, const void *p);
+#endif
+
 #endif /* NANOVM_HEAP_H */
